@@ -11,20 +11,20 @@ CONDS = [
          'siblings (bare, or each preceded by a text node / comment); a and b are UNBOUNDED symbolic integers, '
          'var (An+B vs constant) and last symbolic Booleans',
          'a, b: all integers (no bound); n <= 6 quick / 9 thorough siblings; every element index; 3 interleavings',
-         timeout={'quick': 100, 'thorough': 1500}, parts={'quick': 9, 'thorough': 14}, expect_exhaustive=True),
+         timeout={'quick': 100, 'thorough': 900}, parts={'quick': 9, 'thorough': 14}, expect_exhaustive=True),
     Cond('nth_walk_ok',
          'position assigned by the real sibling walk (recovered via :nth-*(p) for p = 0..n+1, plus 2n+1 and -n+2) == '
          'reference position among element siblings / same-type siblings / siblings matching .x, from either end',
          'sibling layouts: all sequences over {li, li.x, p, p.x, text, comment} up to length 3 (quick) / 5 (thorough) '
          'and over {li, p, text} up to length 4 / 8; containers: <ul> in HTML doc (all layouts); document top level, '
          'detached <ul>, <ul> in XML doc (layouts up to length 3 / 4); body runs natively once the solver has fixed the indices',
-         timeout={'quick': 100, 'thorough': 1500}, parts={'quick': 10, 'thorough': 16}),
+         timeout={'quick': 100, 'thorough': 900}, parts={'quick': 10, 'thorough': 16}),
     Cond('nth_detached_ok', 'parentless element (fake parent): position 1 from either end; a, b unbounded',
          'a, b: all integers', timeout={'quick': 60, 'thorough': 300}, expect_exhaustive=True),
     Cond('nth_parse_ok',
          'real CSSParser.parse_pseudo_nth on every valid An+B spelling s == reference An+B parser (a, n, b, of_type, last)',
          'len(s) <= 3 quick / 6 thorough over the alphabet "0-9 n N + - space"; four pseudo-class names',
-         timeout={'quick': 100, 'thorough': 1200}, parts={'quick': 4, 'thorough': 4}),
+         timeout={'quick': 100, 'thorough': 600}, parts={'quick': 4, 'thorough': 4}),
     Cond('nth_keywords_ok',
          ':first-child, :last-child, :only-child, :first/last/only-of-type select (real select()) exactly what their '
          'An+B instances select and what the reference position designates',
